@@ -49,8 +49,19 @@ func countProlongations(w *World) int {
 	return n
 }
 
-// runArm returns key/msg; key "inconclusive" when the timing guard dropped a round.
+// runArm returns key/msg; key "inconclusive" when the timing guard dropped a round. Every round has
+// a connection of its own: a timeout that is delivered late (a loaded machine) can then only be
+// missed, never be counted for another round.
 func runArm(sc ArmScript) (key, msg string) {
+	for ri, r := range sc.Rounds {
+		if k, m := runArmRound(ri, r); k != "" {
+			return k, m
+		}
+	}
+	return "", ""
+}
+
+func runArmRound(ri int, r ArmRound) (key, msg string) {
 	realCaseNo.Lock()
 	realCaseNo.n++
 	suffix := fmt.Sprintf("-a%d", realCaseNo.n)
@@ -82,57 +93,55 @@ func runArm(sc ArmScript) (key, msg string) {
 		w.conn[Server].CloseConnection(false, 0, "")
 		w.conn[Client].CloseConnection(false, 0, "")
 	}()
-	for ri, r := range sc.Rounds {
-		before := countProlongations(w)
-		minD, maxD := r.D[0], r.D[0]
-		for _, d := range r.D {
-			if d < minD {
-				minD = d
-			}
-			if d > maxD {
-				maxD = d
-			}
+	before := countProlongations(w)
+	minD, maxD := r.D[0], r.D[0]
+	for _, d := range r.D {
+		if d < minD {
+			minD = d
 		}
-		release := make(chan struct{})
-		var wg, ready sync.WaitGroup
-		for _, d := range r.D {
-			wg.Add(1)
-			ready.Add(1)
-			go func(d int) {
-				defer wg.Done()
-				ready.Done()
-				<-release
-				w.conn[Server].VerifArmTimer(0, time.Duration(d)*time.Millisecond)
-			}(d)
+		if d > maxD {
+			maxD = d
 		}
-		if r.StopAlong {
-			wg.Add(1)
-			ready.Add(1)
-			go func() {
-				defer wg.Done()
-				ready.Done()
-				<-release
-				w.conn[Server].VerifStopTimer()
-			}()
-		}
-		ready.Wait()
-		start := time.Now()
-		close(release)
-		wg.Wait()
-		if r.StopAfter {
+	}
+	release := make(chan struct{})
+	var wg, ready sync.WaitGroup
+	for _, d := range r.D {
+		wg.Add(1)
+		ready.Add(1)
+		go func(d int) {
+			defer wg.Done()
+			ready.Done()
+			<-release
+			w.conn[Server].VerifArmTimer(0, time.Duration(d)*time.Millisecond)
+		}(d)
+	}
+	if r.StopAlong {
+		wg.Add(1)
+		ready.Add(1)
+		go func() {
+			defer wg.Done()
+			ready.Done()
+			<-release
 			w.conn[Server].VerifStopTimer()
-		}
-		if took := time.Since(start); took > time.Duration(minD-10)*time.Millisecond {
-			return "inconclusive", fmt.Sprintf("round %d: the operations took %v, shortest timer %d ms", ri, took, minD)
-		}
-		time.Sleep(time.Duration(maxD+60) * time.Millisecond)
-		got := countProlongations(w) - before
-		if r.StopAfter && got > 0 {
-			return "C14/stale-timeout", fmt.Sprintf("round %d: %d timeout(s) delivered although the timer was stopped after the timers %v ms had been armed (concurrently) and before any of them was due", ri, got, r.D)
-		}
-		if got > 1 {
-			return "C14/stale-timeout", fmt.Sprintf("round %d: %d timeouts delivered after the timers %v ms were armed concurrently; only the most recently armed one may deliver", ri, got, r.D)
-		}
+		}()
+	}
+	ready.Wait()
+	start := time.Now()
+	close(release)
+	wg.Wait()
+	if r.StopAfter {
+		w.conn[Server].VerifStopTimer()
+	}
+	if took := time.Since(start); took > time.Duration(minD-10)*time.Millisecond {
+		return "inconclusive", fmt.Sprintf("round %d: the operations took %v, shortest timer %d ms", ri, took, minD)
+	}
+	time.Sleep(time.Duration(maxD+60) * time.Millisecond)
+	got := countProlongations(w) - before
+	if r.StopAfter && got > 0 {
+		return "C14/stale-timeout", fmt.Sprintf("round %d: %d timeout(s) delivered although the timer was stopped after the timers %v ms had been armed (concurrently) and before any of them was due", ri, got, r.D)
+	}
+	if got > 1 {
+		return "C14/stale-timeout", fmt.Sprintf("round %d: %d timeouts delivered after the timers %v ms were armed concurrently; only the most recently armed one may deliver", ri, got, r.D)
 	}
 	return "", ""
 }
